@@ -205,6 +205,16 @@ def contains(ctx, container, item):
             if r is not False:
                 parts.append(zbool(r))
         return SBool(z3.Or(*parts)) if parts else False
+    if isinstance(container, dict) and (isinstance(item, Sym) or any(isinstance(k, Sym) for k in container)):
+        # association-list reading of a dict with symbolic keys
+        parts = []
+        for k in container:
+            r = compare(ctx, '==', k, item)
+            if r is True:
+                return True
+            if r is not False:
+                parts.append(zbool(r))
+        return SBool(z3.Or(*parts)) if parts else False
     if isinstance(container, (dict, set, frozenset, str, range, bytes)):
         if isinstance(item, Sym):
             if isinstance(container, (set, frozenset, dict, range)) and isinstance(item, (SInt,)):
@@ -244,8 +254,11 @@ def getitem(ctx, obj, idx):
         except _PYEXC as e:
             raise pyraise_from(e)
     if isinstance(obj, dict):
-        if isinstance(idx, Sym):
-            raise Unsupported('symbolic key into concrete dict')
+        if isinstance(idx, Sym) or any(isinstance(k, Sym) for k in obj):
+            k = dict_find(ctx, obj, idx)
+            if k is _MISSING:
+                raise PyRaise('KeyError')
+            return obj[k]
         try:
             return obj[idx]
         except _PYEXC as e:
@@ -255,9 +268,29 @@ def getitem(ctx, obj, idx):
     raise Unsupported('subscript of %s' % type(obj).__name__)
 
 
+_MISSING = object()
+
+
+def dict_find(ctx, d, key):
+    """The existing key of `d` equal to `key` (forks on symbolic equality), or _MISSING."""
+    for k in list(d):
+        r = compare(ctx, '==', k, key)
+        if isinstance(r, bool):
+            if r:
+                return k
+            continue
+        if ctx.branch(zbool(r)):
+            return k
+    return _MISSING
+
+
 def setitem(ctx, obj, idx, value):
     if isinstance(obj, Sym):
         return obj.setitem(ctx, idx, value)
+    if isinstance(obj, dict) and (isinstance(idx, Sym) or any(isinstance(k, Sym) for k in obj)):
+        k = dict_find(ctx, obj, idx)
+        obj[idx if k is _MISSING else k] = value
+        return
     if isinstance(obj, (list, dict)):
         if isinstance(idx, Sym):
             raise Unsupported('symbolic index store into concrete container')
